@@ -43,6 +43,15 @@ CHECKS = {
     "C11": (True, "bounded exhaustive enumeration of circuits x nodes x endpoint subsets on the implementation; transforms decided by reference simulation, SAT-backed analyses under enumerated solver answers",
             "sensitization_transform for every node and every non-empty endpoint subset (cap 3) + defaults, sensitivity_transform for every node over (I,G) in {(2,2),(3,2),(1,2)} + constants + feed-through: sat / dif_out / sen_out tables vs definitions; props.sensitivity/influence/avg_sensitivity/sensitize over (2,2),(3,1),(3,2 arity 2) and cones with 1..5 (8) startpoints incl. functionally constant nodes.",
             TRUST + SAT_TRUST, "4/C11"),
+    "C05": (True, "bounded exhaustive enumeration of circuits x k / num_stages x operand orders on the implementation, vs reference truth tables of every original node",
+            "limit_fanin: each multi-input type with 2..6 (7) structurally distinct operands x k=2..5 x all m! name-to-operand assignments for m<=4 under 4 (6) hash seeds, plus generic circuits with arity<=4 and blackbox-adjacent wide gates; limit_fanout: drivers of 4 kinds with 2..7 mixed loads (gates, outputs, bb_input pins) x k=2..5 and generic shared-fan-in circuits; insert_registers: (2,3) circuits and chains, num_stages 1..3 where a boundary exists, flops made transparent; acyclic_unroll on acyclic circuits incl. outputs that are inputs/constants.",
+            TRUST, "4/C05"),
+    "C17": (True, "bounded exhaustive enumeration of circuits on the implementation, vs reference closure (cover, order, disjointness, induced wiring) and hierarchical reference simulation",
+            "All fan-in<=2 circuits (2,3) over 6 types and (3,3) over {nand,nor,xor,not} with sink outputs and single-output variants + the textbook 13-gate example: single output per element, topological order, cover of every gate in the output cones, induced wiring, pairwise (reflexively) disjoint fan-in of supergate inputs; circuits with 3..4-input gates: cover + super-circuit; construct_supercircuit=True on every single-output circuit evaluated hierarchically (never flattened) vs the original function.",
+            TRUST, "4/C17"),
+    "C18": (True, "bounded exhaustive enumeration of cyclic circuits x output subsets x hash seeds on the implementation, vs brute-force fixed points",
+            "All circuits (I,G) in {(1,2),(2,2),(1,3 arity 2)} (thorough +(1,3 arity 3),(2,3),(1,4)) whose gate fan-ins are arbitrary subsets of the other nodes and that contain a cycle, every output subset of size <=2, 3 hash seeds: result acyclic, lint-clean, same outputs, inputs = originals + one auxiliary per cut node; for every input valuation and every stable state, auxiliaries set to the stable values reproduce every output.",
+            TRUST, "4/C18"),
 }
 
 NOT_YET = "check not built yet in this session (planned in DESIGN.md section 4); not claimed until its machinery exists"
